@@ -789,3 +789,18 @@ mod check {
         assert!(Range::<u8, u8>::default().next().is_none());
     }
 }
+
+// --- added by the lead for client/transaction.rs (group runtime_vmap_txn): `values()` -----------
+pub struct Values<'a, K, V>(Range<'a, K, V>);
+impl<'a, K, V> Iterator for Values<'a, K, V> {
+    type Item = &'a V;
+    fn next(&mut self) -> Option<&'a V> {
+        self.0.next().map(|(_, v)| v)
+    }
+}
+impl<K: Ord, V> BTreeMap<K, V> {
+    /// Values in ascending key order (std semantics).
+    pub fn values(&self) -> Values<'_, K, V> {
+        Values(self.iter())
+    }
+}
